@@ -147,6 +147,7 @@ def run(rep, tier):
         rep.call(type_tables.t_types, rep, prog, "C17.table")
         rep.call(round_trip, rep, prog, "C17.round-trip")
         rep.call(endpoints, rep, prog, "C17.endpoints")
+        rep.call(dynamic_no_shortcut, rep, prog, "C17.dynamic-no-shortcut")
         rep.call(convert_all, rep, prog, "C17.convert-all")
     if tier == "thorough":
         rep.set_cfg("witness")
@@ -540,6 +541,42 @@ def endpoints(rep, prog, rule):
         else:
             rep.ok(rule, key, f.loc, "%r -> %r, %r -> %r" % (ENDS[src][0], ENDS[dst][0], ENDS[src][1], ENDS[dst][1]))
     rep.floor(rule, "conversions among u8, u16 and f32", n, 6)
+
+
+def dynamic_no_shortcut(rep, prog, rule):
+    rep.rule(rule, "the dynamic entry point change_type_of_pixel_components answers Ok only with what the "
+             "typed conversion returned: its own body contains no literal `Ok(())`. An early `return "
+             "Ok(())` (e.g. 'nothing to do for an empty image', placed before the table) accepts pairs of "
+             "images that differ in size or in the number of components, which the table / the typed "
+             "function reject with UnsupportedCombinationOfImageTypes / DifferentDimensions")
+    fs = [f for f in prog.fns.values()
+          if f.name.rsplit("::", 1)[-1] == "change_type_of_pixel_components" and f.kind != "closure"]
+    if len(fs) != 1:
+        rep.unk(rule, "anchor", "", "%d functions named change_type_of_pixel_components" % len(fs))
+        return
+    f = fs[0]
+    rep.touch(f)
+    from ..engines.flow import return_locals
+    rl = return_locals(f)
+    lits = []
+    for b, blk in enumerate(f.blocks):
+        if blk["c"]:
+            continue
+        for st in blk["s"]:
+            if st[0] == "a" and len(st[1]) == 1 and st[1][0] in rl and st[2][0] == "agg" and st[2][1] == "adt" \
+                    and st[2][2] == "core::result::Result" and st[2][3][1] == "Ok":
+                lits.append(st)
+            elif st[0] == "a" and len(st[1]) == 1 and st[1][0] in rl and st[2][0] == "use" and st[2][1][0] == "k" \
+                    and len(st[2][1]) > 3 and isinstance(st[2][1][3], list) and st[2][1][3][:1] == ["variant"] \
+                    and st[2][1][3][1] == "Ok":
+                lits.append(st)
+    if lits:
+        rep.bad(rule, "change_type_of_pixel_components|literal-ok", lits[0][3],
+                "%s returns a literal Ok(()) (%d place(s)): a pair of images is accepted without the "
+                "pixel-type table and the dimension check having looked at it" % (f.name, len(lits)))
+    else:
+        rep.ok(rule, "change_type_of_pixel_components|no-literal-ok", f.loc,
+               "Ok comes from the typed conversion only")
 
 
 def round_trip(rep, prog, rule):
